@@ -119,7 +119,7 @@ struct Meter
          if (g_refused > 0)      orc << k << " ORACLE FAIL alloc " << what << ": one request exceeds K*len+C (request=" << g_refused << " len=" << len << " budget=" << g_budget << ")\n";
          else if (g_peak > g_budget) orc << k << " ORACLE FAIL alloc " << what << ": peak heap growth exceeds K*len+C (peak=" << g_peak << " len=" << len << " budget=" << g_budget << ")\n";
       }
-      if (dt > 2.0 + 40e-6*(double)len) orc << k << " ORACLE FAIL time " << what << ": cpu time not linear (len=" << len << ")\n";
+      if (dt > 2.0 + 40e-6*(double)len + 25e-9*(double)g_peak) orc   /* the last term: the sanitizer allocator touches shadow memory for every byte handed out */ << k << " ORACLE FAIL time " << what << ": cpu time not linear (len=" << len << ")\n";
    }
 };
 
